@@ -8,6 +8,7 @@ No bound on strings, codes, chain depths, step counts, instance counts or schedu
 import Pandora.Bridge.GrpcStatus
 import Pandora.Proofs.C10
 import Pandora.Proofs.C10R2
+import Pandora.Proofs.C10R3
 
 namespace Pandora.Props.C10
 open Pandora.Model.C10 Pandora.Spec.C10 Pandora.Proofs.C10
@@ -610,6 +611,218 @@ theorem C10_spec_accepts_model :
     · rw [executed_map]; simp
     · rw [executed_map]; exact judgeShot_accepts scn _
 
+
+/-! ## redirects: which client does the exchange, and which answer is "the response received" -/
+
+def toSpecLoc : Model.C10.Loc → Spec.C10.Loc
+  | .absent => .absent
+  | .leadsOn => .leadsOn
+  | .unparsable => .unparsable
+  | .loops => .loops
+
+/-- the model's chain and the Spec's chain describe the same exchanges: answers agree, and the exchange a chain ends with
+has the ground truth of its outcome -/
+inductive HopTruth : Hop → ChainHop → Prop
+  | answer (st : Nat) (loc : Model.C10.Loc) : HopTruth (.answer st loc) (.answer st (toSpecLoc loc))
+  | last (o : HttpOutcome) (t : Truth) : TruthFor o t → HopTruth (.last o) (.last t)
+
+/-- hop by hop, for chains of any length -/
+inductive ChainsAgree : List Hop → List ChainHop → Prop
+  | nil : ChainsAgree [] []
+  | cons {m : Hop} {c : ChainHop} {ms : List Hop} {cs : List ChainHop} :
+      HopTruth m c → ChainsAgree ms cs → ChainsAgree (m :: ms) (c :: cs)
+
+/-- Whatever chain of answers the target leads a client through — any statuses, any `Location` headers (absent, leading
+on, unparsable, looping), any last exchange, any length — the outcome `NewRedirectingClient(tr, redirect).Do` hands to
+`Shoot` has exactly the ground truth the Spec assigns to that chain: with `redirect: false` the first answer, with
+`redirect: true` the last answer of the chain, or a failed exchange when the chain cannot be followed. -/
+theorem C10_redirect_truth (redirect : Bool) (mh : List Hop) (sh : List ChainHop) (h : ChainsAgree mh sh) :
+    TruthFor (clientDo redirect mh) (chainTruth redirect sh) := by
+  have hgave : TruthFor clientGaveUp .failed := .failed _ (by simp [ErrnoNonzero])
+  have hnone : TruthFor (.doErr .other) .failed := .failed _ (by simp [ErrnoNonzero])
+  unfold clientDo chainTruth
+  cases redirect with
+  | false =>
+    simp only [Bool.false_eq_true, if_false]
+    cases h with
+    | nil => simpa [bareDo, chainTruthN] using hnone
+    | cons hd _ =>
+      cases hd with
+      | answer st loc => simpa [bareDo, chainTruthN] using TruthFor.received st
+      | last o t ht => simpa [bareDo, chainTruthN] using ht
+  | true =>
+    simp only [if_true]
+    have hmax : Model.C10.maxRequests = Spec.C10.maxRequests := rfl
+    rw [hmax]
+    generalize Spec.C10.maxRequests = n
+    induction h generalizing n with
+    | nil => simpa [followDo, chainTruthN] using hnone
+    | cons hd _ ih =>
+      cases hd with
+      | last o t ht => simpa [followDo, chainTruthN] using ht
+      | answer st loc =>
+        unfold followDo chainTruthN
+        rw [isRedirectStatus_eq]
+        by_cases hr : Spec.C10.isRedirectStatus st = true
+        · simp only [hr, if_true]
+          cases loc with
+          | absent => exact TruthFor.received st
+          | unparsable => exact hgave
+          | loops => exact hgave
+          | leadsOn =>
+            simp only [toSpecLoc]
+            by_cases hn : n ≤ 1
+            · simpa [hn] using hgave
+            · simpa [hn] using ih (n - 1)
+        · simp only [hr]
+          exact TruthFor.received st
+
+/-- Redirects and the samples.
+1. `redirect: false` (the default): the FIRST answer is the response received — the sample carries its status and net
+   code 0 whatever the `Location` header says (nothing, a reference, something no URL parser accepts) and whatever would
+   follow.
+2. Either setting, any chain: the executable Spec, judging by the ground truth it assigns to the chain, accepts the
+   gun's sample.
+3. The client's limit: `k` redirects and then an exchange `o` are followed to `o` for `k < 10` (ten requests) and end in
+   the client's own error (a failed exchange, net code 999) from `k = 10` on. -/
+theorem C10_redirect :
+    (∀ (cfg : AutoTagCfg) (s : HttpShot) (st : Nat) (loc : Model.C10.Loc) (rest : List Hop), s.connectHook = none →
+        s.invalid = false → s.outcome = clientDo false (.answer st loc :: rest) →
+        (shootHttp cfg s).reports = [{ tags := httpTag cfg s.ammoTag s.path, id := s.id, proto := st, net := 0 }]) ∧
+    (∀ (redirect : Bool) (cfg : AutoTagCfg) (s : HttpShot) (mh : List Hop) (sh : List ChainHop), s.connectHook = none →
+        s.invalid = false → ChainsAgree mh sh → s.outcome = clientDo redirect mh →
+        judgeHttp (expectedTag cfg.enabled cfg.uriElements cfg.noTagOnly s.ammoTag s.path) (chainTruth redirect sh)
+          ((shootHttp cfg s).reports.map toObs) = "ok") ∧
+    (∀ (o : HttpOutcome) (k : Nat),
+        clientDo true (List.replicate k (.answer 302 .leadsOn) ++ [.last o]) = if k < 10 then o else clientGaveUp) := by
+  refine ⟨?_, ?_, ?_⟩
+  · intro cfg s st loc rest hc hv ho
+    simp [shootHttp, hc, hv, ho, clientDo, bareDo]
+  · intro redirect cfg s mh sh hc hv hh ho
+    exact C10_spec_accepts_model.1 cfg s _ hc hv (ho ▸ C10_redirect_truth redirect mh sh hh)
+  · intro o k
+    simpa [clientDo, Model.C10.maxRequests] using followDo_replicate o k 10 (by decide)
+
+/-- The same statement for a client that serves `redirect: false` by an `*http.Client` whose `CheckRedirect` refuses to
+follow (`http.ErrUseLastResponse`) is FALSE: that client parses the `Location` of a redirecting answer before it asks
+`CheckRedirect`, and a 302 whose `Location` cannot be parsed is reported as a failed exchange (proto 0, net 999)
+although the target answered. Why `noRedirectClient` (regenerated: `pathsNewRedirectingClient`, `srcNoRedirectClientDo`)
+is a bare `RoundTrip`. -/
+def C10_redirect_off_via_checkredirect_statement : Prop :=
+  ∀ (cfg : AutoTagCfg) (s : HttpShot) (mh : List Hop) (sh : List ChainHop), s.connectHook = none → s.invalid = false →
+    ChainsAgree mh sh → s.outcome = checkRedirectDo mh →
+    judgeHttp (expectedTag cfg.enabled cfg.uriElements cfg.noTagOnly s.ammoTag s.path) (chainTruth false sh)
+      ((shootHttp cfg s).reports.map toObs) = "ok"
+
+theorem C10_redirect_off_via_checkredirect_counterexample : ¬ C10_redirect_off_via_checkredirect_statement := by
+  intro h
+  have := h ⟨false, 1, false⟩ { ammoTag := "t", id := 1, path := "/a", outcome := checkRedirectDo [.answer 302 .unparsable] }
+    [.answer 302 .unparsable] [.answer 302 .unparsable] rfl rfl (.cons (.answer 302 .unparsable) .nil) rfl
+  revert this
+  decide
+
+/-! ## pauses of a scenario step, and an instance cancelled during one -/
+
+/-- A scenario step may be followed by a pause, and the instance may be cancelled while the gun is inside it (`c`: the
+number of the step after which that happens, `none`: never). The code's pause is `time.Sleep` and its step loop never
+looks at the context: the shot is EXACTLY the shot without a cancellation, so every statement about `shootScenario`
+holds under any cancellation — in particular one sample per executed step, in order. The same "one sample per executed
+step" holds for a pause that ends the shot quietly when cancelled (fewer steps are executed, each still has its one
+sample). -/
+theorem C10_cancel_during_pause :
+    (∀ (scn : String) (c : Option Nat) (steps : List Step),
+        shootScenarioPaused .sleeps scn c steps = shootScenario scn steps) ∧
+    (∀ (scn : String) (c : Option Nat) (steps : List Step), NoPanic steps →
+        OnePerExecutedStep scn steps (shootScenarioPaused .sleeps scn c steps)) ∧
+    (∀ (scn : String) (c : Option Nat) (steps : List Step), NoPanic steps →
+        OnePerExecutedStep scn steps (shootScenarioPaused .stopsQuietly scn c steps)) := by
+  refine ⟨fun scn c steps => paused_sleeps scn steps c, ?_, fun scn c steps hp => paused_stopsQuietly scn steps c hp⟩
+  intro scn c steps hp
+  rw [paused_sleeps]
+  exact ⟨executedSteps steps, executedSteps_le steps, (shootScenario_reports scn steps hp).1⟩
+
+/-- For a pause that makes `shootStep` return an error when the instance is cancelled the statement is FALSE: the step
+loop hands every error of `shootStep` to `reportErr`, and the step's sample — already reported before the pause — is
+reported a second time (as a failed step). One answered request, two samples. -/
+def C10_pause_returning_error_statement : Prop :=
+  ∀ (scn : String) (c : Option Nat) (steps : List Step), NoPanic steps →
+    OnePerExecutedStep scn steps (shootScenarioPaused .returnsError scn c steps)
+
+theorem C10_pause_returning_error_counterexample : ¬ C10_pause_returning_error_statement := by
+  intro h
+  obtain ⟨k, hk, hr⟩ := h "scn" (some 0) [⟨"login", .received 200 .ok⟩]
+    (by intro s hs st; simp at hs; subst hs; simp)
+  have hlen := congrArg List.length hr
+  have h2 : (shootScenarioPaused .returnsError "scn" (some 0) [⟨"login", .received 200 .ok⟩]).reports.length = 2 := by decide
+  rw [h2] at hlen
+  simp at hlen hk
+  omega
+
+/-! ## the model's paths are the code's paths -/
+
+/-- The decision trees of the model and the functions of the repo take the SAME PATHS, in the vocabulary of the path
+summaries regenerated from the source on every run (`Gen.GrpcStatus.paths…`: per path the exit and the setter calls,
+`Report` calls and exchange results along it; `Bridge.GrpcStatus.paths…_model`):
+1. every shot of the http gun — any setting, tag, path and outcome but the fatal panic — takes a path of `BaseGun.Shoot`,
+   and reports as often along it as `shootHttp` says;
+2. conversely every path of `BaseGun.Shoot` that does not panic is the path of some shot of the model: the code has no
+   way through `Shoot` the model does not know;
+3. the same for the gRPC gun;
+4. every step outcome of the scenario guns (with or without a pause) takes a path of the respective `shootStep`. -/
+theorem C10_paths :
+    (∀ (cfg : AutoTagCfg) (s : HttpShot), s.connectHook = none → s.outcome ≠ .doPanic →
+        httpPath cfg s ∈ Gen.GrpcStatus.pathsBaseShoot ∧
+        reportCount (httpPath cfg s).2 = (shootHttp cfg s).reports.length) ∧
+    (∀ p ∈ Gen.GrpcStatus.pathsBaseShoot, p.1 ≠ "panic" → ∃ cfg s, s.connectHook = none ∧ httpPath cfg s = p) ∧
+    (∀ (tag : String) (o : GrpcOutcome), grpcPath o ∈ Gen.GrpcStatus.pathsGrpcShoot ∧
+        reportCount (grpcPath o).2 = (shootGrpc tag o).reports.length) ∧
+    (∀ p ∈ Gen.GrpcStatus.pathsGrpcShoot, ∃ o, grpcPath o = p) ∧
+    (∀ (pause : Bool) (o : StepOutcome) (p : Path), stepPath pause o = some p → p ∈ Gen.GrpcStatus.pathsScenarioShootStep) ∧
+    (∀ (pause : Bool) (o : GrpcStepOutcome) (p : Path), grpcStepPath pause o = some p →
+        p ∈ Gen.GrpcStatus.pathsGrpcScenarioShootStep) := by
+  have hb := sameSet_spec Bridge.GrpcStatus.pathsBaseShoot_model
+  have hg := sameSet_spec Bridge.GrpcStatus.pathsGrpcShoot_model
+  have hs := sameSet_spec Bridge.GrpcStatus.pathsScenarioShootStep_model
+  have hgs := sameSet_spec Bridge.GrpcStatus.pathsGrpcScenarioShootStep_model
+  refine ⟨?_, ?_, ?_, ?_, ?_, ?_⟩
+  · intro cfg s hc hp
+    refine ⟨(List.mem_filter.mp (hb.2 _ (httpPath_mem cfg s hp))).1, ?_⟩
+    rw [(C10_one_sample_per_request.1 cfg s hc)]
+    have hmem := httpPath_mem cfg s hp
+    have : ∀ q ∈ httpPaths, reportCount q.2 = 1 := by decide
+    exact this _ hmem
+  · intro p hp hne
+    have hm : p ∈ httpPaths := hb.1 p (List.mem_filter.mpr ⟨hp, by simpa using hne⟩)
+    simp only [httpPaths, List.mem_map] at hm
+    obtain ⟨⟨cfg, s⟩, hk, rfl⟩ := hm
+    refine ⟨cfg, s, ?_, rfl⟩
+    have : ∀ k ∈ httpShotKinds, k.2.connectHook = none := by decide
+    exact this _ hk
+  · intro tag o
+    constructor
+    · apply hg.2
+      cases o <;> simp [grpcPaths, grpcPath]
+    · cases o <;> simp [grpcPath, reportCount, shootGrpc]
+  · intro p hp
+    have hm := hg.1 p hp
+    simp only [grpcPaths, List.mem_map] at hm
+    obtain ⟨o, _, rfl⟩ := hm
+    exact ⟨o, rfl⟩
+  · intro pause o p h
+    apply hs.2
+    cases pause <;> cases o with
+    | prepErr => simp [stepPath] at h; subst h; decide
+    | doErr e => simp [stepPath] at h; subst h; decide
+    | bodyErr st e => simp [stepPath] at h; subst h; decide
+    | received st post => cases post <;> simp [stepPath] at h <;> (subst h; decide)
+  · intro pause o p h
+    apply hgs.2
+    cases pause <;> cases o with
+    | prepErr => simp [grpcStepPath] at h; subst h; decide
+    | unknownMethod => simp [grpcStepPath] at h; subst h; decide
+    | badPayload => simp [grpcStepPath] at h; subst h; decide
+    | invoked c post => cases post <;> simp [grpcStepPath] at h <;> (subst h; decide)
+
 /-! ## non-vacuity: concrete non-trivial inputs meeting the hypotheses -/
 
 -- the documented example: /my/very/deep/page with uri-elements 2 gives /my/very
@@ -670,5 +883,33 @@ example : judgeShots "s" [("a", .passed 200), ("b", .failedStep)] 1
     [⟨"s.a", 0, 200, 0⟩, ⟨"s.b", 0, 500, 0⟩, ⟨"s.b|__EMPTY__", 0, 0, 999⟩]
     = "fail:count:step s.b executed 1 time(s) but 2 sample(s) carry its tag" := by decide
 example : judgeGrpc [("m", none)] [⟨"m", 0, 200, 0⟩] ≠ "ok" := by decide
+-- round 3: redirects. A 302 with an unparsable Location: the first answer with redirects off, a failed exchange when following
+example : clientDo false [.answer 302 .unparsable] = .response 302 none := by decide
+example : clientDo true [.answer 302 .unparsable] = .doErr (.urlError .other) := by decide
+example : chainTruth false [.answer 302 .unparsable] = .received 302 ∧ chainTruth true [.answer 302 .unparsable] = .failed := by decide
+-- a chain: 301 -> 307 -> 404; the other host is dead; a 3xx no client follows
+example : clientDo true [.answer 301 .leadsOn, .answer 307 .leadsOn, .last (.response 404 none)] = .response 404 none := by decide
+example : clientDo true [.answer 302 .leadsOn, .last (.doErr (.urlError (.opError (.syscallError (.errno 111)))))]
+    = .doErr (.urlError (.opError (.syscallError (.errno 111)))) := by decide
+example : clientDo true [.answer 300 .leadsOn, .last (.response 200 none)] = .response 300 none := by decide
+example : ChainsAgree [.answer 302 .leadsOn, .last (.response 404 none)] [.answer 302 .leadsOn, .last (.received 404)] :=
+  .cons (.answer 302 .leadsOn) (.cons (.last _ _ (.received 404)) .nil)
+-- nine redirects are followed (ten requests), ten are not
+example : clientDo true (List.replicate 9 (.answer 302 .leadsOn) ++ [.last (.response 201 none)]) = .response 201 none := by decide
+example : clientDo true (List.replicate 10 (.answer 302 .leadsOn) ++ [.last (.response 201 none)]) = clientGaveUp := by decide
+-- round 3: a cancellation during the pause after the first step: nothing changes for the code's pause, the shot ends for a
+-- quiet one, the step is reported twice when the pause returns an error
+example : (shootScenarioPaused .sleeps "scn" (some 0) [⟨"login", .received 200 .ok⟩, ⟨"next", .received 404 .ok⟩]).reports.map (·.tags)
+    = ["scn.login", "scn.next"] := by decide
+example : (shootScenarioPaused .stopsQuietly "scn" (some 0) [⟨"login", .received 200 .ok⟩, ⟨"next", .received 404 .ok⟩]).reports.map (·.tags)
+    = ["scn.login"] := by decide
+example : (shootScenarioPaused .returnsError "scn" (some 0) [⟨"login", .received 200 .ok⟩, ⟨"next", .received 404 .ok⟩]).reports.map (·.tags)
+    = ["scn.login", "scn.login|__EMPTY__"] := by decide
+example : hitsMismatch "scn" [⟨"scn.login", 0, 200, 0⟩, ⟨"scn.login|__EMPTY__", 0, 0, 999⟩] [("login", 1), ("next", 0)]
+    = some "fail:count:the target saw 1 request(s) of step scn.login but 2 sample(s) carry its tag" := by decide
+-- round 3: paths
+example : httpPath ⟨true, 1, false⟩ { ammoTag := "t", id := 7, path := "/a/b", outcome := .response 503 (some .other) }
+    = ("void", ["IsInvalid=false", "AddTag", "Do=ok", "SetProtoCode", "Body=err", "SetErr", "Report"]) := by decide
+example : stepPath true (.received 200 .ok) = some ("nil", ["Do=ok", "Body=ok", "SetProtoCode", "Report", "Sleep"]) := by decide
 
 end Pandora.Props.C10
